@@ -57,6 +57,8 @@ MethodsOf(op) ==
       [] op \in {"exit", "dtor"} -> {M_EXIT}
       [] op \in {"load", "rt", "re"} -> life
       [] OTHER -> {}
+\* the plan step can be interpreted from outside only if both outcome callbacks are observable (an outcome clears the plan)
+PlanObs == HasHead /\ Defines(NONE, M_PLAN_SUCCEEDED) /\ Defines(NONE, M_PLAN_FAILED)
 MustLog(s, m) == Verbose \/ Defines(s, m)
 MayLog(s, m)  == MustLog(s, m) \/ Injections(s) >= 1 \/ m \in {M_PRE_REACT, M_REACT, M_POST_REACT, M_QUERY}
 \* C15 fixes the order of the sub-deliveries (injections, the class itself) for every callback except exitGuard and query: for
@@ -419,9 +421,9 @@ CheckCb(tk, e, tk2) ==
                       [] OTHER -> <<>>,
            "C16", "an action inside a callback did not produce exactly its log record")
     \* ---- tasks that fire are tasks that were appended (with the payload they were appended with)
-    \cup V(step /\ ~IsPlanCb(e.m) => \A q \in 1 .. Len(tk2.fired) : HasOD(tk.planx, tk2.fired[q]),
+    \cup V(step /\ PlanObs /\ ~IsPlanCb(e.m) => \A q \in 1 .. Len(tk2.fired) : HasOD(tk.planx, tk2.fired[q]),
            "C08", "a task fired that is not in the plan: never appended, already removed or already fired")
-    \cup V(step /\ ~IsPlanCb(e.m) => \A q \in 1 .. Len(tk2.fired) : HasOD(tk.planx, tk2.fired[q]) => HasExact(tk.planx, tk2.fired[q]),
+    \cup V(step /\ PlanObs /\ ~IsPlanCb(e.m) => \A q \in 1 .. Len(tk2.fired) : HasOD(tk.planx, tk2.fired[q]) => HasExact(tk.planx, tk2.fired[q]),
            "C07", "a task fired with a payload other than the one it was appended with")
     \* ---- plan bookkeeping visible in every view
     \cup V0(PlanActsOK(pn, e.acts, 1), "C10", "append / remove result disagrees with the exact task capacity")
@@ -479,24 +481,25 @@ CheckCb(tk, e, tk2) ==
     \cup V(step => tk.phases = PhaseDeliveries, "C05", "requests were processed (or the plan stepped) before every phase callback of the call had run")
     \cup V(IsPhase(e.m) \/ e.m = M_QUERY => e.s \in {NONE, a0}, "C05", "phase callback of a state that was not active when the call began")
     \cup V(IsPhase(e.m) \/ e.m = M_QUERY => tk.op \in {"update", "react", "query"}, "C05", "phase callback outside update()/react()/query()")
-    \* ---- C08 / C09: the plan step
-    \cup V(step /\ HasHead /\ ~IsPlanCb(e.m) => IsSubseq(pn, pb, 1, 1), "C08", "tasks that did not fire were reordered or replaced in the plan step")
-    \cup V(step /\ HasHead /\ ~IsPlanCb(e.m) => \A q \in 1 .. Len(pos) : pos[q] <= PrefixLen(pb, a0, 1) /\ pb[pos[q]][1] \in tk.msucc,
+    )
+    \* ---- C08 / C09: the plan step (plan views, reports and plan edits are observed completely whatever the classes define)
+    \cup V(step /\ PlanObs /\ ~IsPlanCb(e.m) => IsSubseq(pn, pb, 1, 1), "C08", "tasks that did not fire were reordered or replaced in the plan step")
+    \cup V(step /\ PlanObs /\ ~IsPlanCb(e.m) => \A q \in 1 .. Len(pos) : pos[q] <= PrefixLen(pb, a0, 1) /\ pb[pos[q]][1] \in tk.msucc,
            "C08", "a task fired whose origin is not the active state with an outstanding success, or past a task of another origin")
-    \cup V(step /\ HasHead /\ ~IsPlanCb(e.m) => \A q \in 1 .. Len(pos) : pb[pos[q]][1] = pb[pos[q]][2] => \A z \in 1 .. Len(pos) : pos[z] <= pos[q],
+    \cup V(step /\ PlanObs /\ ~IsPlanCb(e.m) => \A q \in 1 .. Len(pos) : pb[pos[q]][1] = pb[pos[q]][2] => \A z \in 1 .. Len(pos) : pos[z] <= pos[q],
            "C08", "a success report fired further tasks after a cyclic task had consumed it")
-    \cup V(step /\ HasHead /\ rstart /\ proc /\ tk2.fired # <<>> /\ e.pend[2] = Last(tk2.fired)[2] /\ e.pend[3] = Last(tk2.fired)[3]
+    \cup V(step /\ PlanObs /\ rstart /\ proc /\ tk2.fired # <<>> /\ e.pend[2] = Last(tk2.fired)[2] /\ e.pend[3] = Last(tk2.fired)[3]
              => e.pend[1] = Last(tk2.fired)[1],
            "C08", "the transition issued by a task does not name the task's origin as requester")
-    \cup V(HasHist /\ step /\ HasHead /\ rstart /\ proc /\ tk2.fired # <<>> /\ e.pend[2] = Last(tk2.fired)[2] /\ e.pend[3] = Last(tk2.fired)[3]
+    \cup V(HasHist /\ step /\ PlanObs /\ rstart /\ proc /\ tk2.fired # <<>> /\ e.pend[2] = Last(tk2.fired)[2] /\ e.pend[3] = Last(tk2.fired)[3]
              => e.pend[1] = Last(tk2.fired)[1],
            "C11", "the request a task issued - recorded in the history when it survives - does not carry the task's origin")
-    \cup V(step /\ HasHead /\ rstart /\ proc /\ pos = <<>> /\ ~(e.pend[1] = tk.lastreq[1] /\ e.pend[2] = tk.lastreq[2])
+    \cup V(step /\ PlanObs /\ rstart /\ proc /\ pos = <<>> /\ ~(e.pend[1] = tk.lastreq[1] /\ e.pend[2] = tk.lastreq[2])
              => ~\E q \in 1 .. Len(pb) : pb[q] = e.pend /\ pb[q][1] = a0,
            "C08", "a task issued its transition but was not removed from the plan")
-    \cup V(step /\ HasHead /\ pb # <<>> /\ pb[1][1] = a0 /\ a0 \in tk.succ /\ tk.mfail = {} /\ tk.sawF = {} => ~IsPlanCb(e.m) /\ pos # <<>> /\ pos[1] = 1,
+    \cup V(FullObs /\ step /\ PlanObs /\ pb # <<>> /\ pb[1][1] = a0 /\ a0 \in tk.succ /\ tk.mfail = {} /\ tk.sawF = {} => ~IsPlanCb(e.m) /\ pos # <<>> /\ pos[1] = 1,
            "C08", "the first task did not fire although its origin is active and reported success without failures")
-    \cup V(step /\ HasHead /\ tk.lastreq # NoT /\ pb # <<>> /\ pb[1][1] = a0 /\ a0 \in tk.succ /\ tk.mfail = {} /\ tk.sawF = {} => ~IsPlanCb(e.m) /\ pos # <<>> /\ pos[1] = 1,
+    \cup V(FullObs /\ step /\ PlanObs /\ tk.lastreq # NoT /\ pb # <<>> /\ pb[1][1] = a0 /\ a0 \in tk.succ /\ tk.mfail = {} /\ tk.sawF = {} => ~IsPlanCb(e.m) /\ pos # <<>> /\ pos[1] = 1,
            "C02", "the plan's request (the latest of the cycle) did not replace the earlier unprocessed request")
     \cup V(~step /\ ~IsPlanCb(e.m) /\ rstart /\ proc /\ tk.op \in {"update", "react"} /\ tk.stepDone /\ tk.rounds = 0 /\ tk.outcome = 2
              => ~(\E q \in 1 .. Len(tk.planBefore) : tk.planBefore[q] = e.pend) \/ (e.pend[1] = tk.lastreq[1] /\ e.pend[2] = tk.lastreq[2]),
@@ -505,8 +508,7 @@ CheckCb(tk, e, tk2) ==
     \cup V(e.m = M_PLAN_SUCCEEDED /\ start => tk.planExists /\ pb = <<>> /\ (a0 \in tk.msucc \/ tk.sawS # {}),
            "C09", "planSucceeded delivered while tasks remain, without an outstanding success, or without any task ever added")
     \cup V(IsPlanCb(e.m) /\ start => tk.outcome = 0 /\ step, "C09", "more than one plan outcome in one cycle, or outside the plan step")
-    \cup V(step /\ pb # <<>> /\ a0 \in tk.fail /\ HasHead => e.m = M_PLAN_FAILED, "C09", "planFailed not delivered although the plan is non-empty and the active state reported failure")
-    )
+    \cup V(FullObs /\ step /\ pb # <<>> /\ a0 \in tk.fail /\ HasHead => e.m = M_PLAN_FAILED, "C09", "planFailed not delivered although the plan is non-empty and the active state reported failure")
 
 CheckRet(tk, e, tk2) ==
     LET proc == IsProcOp(tk.op)
@@ -602,17 +604,17 @@ CheckRet(tk, e, tk2) ==
     \cup V(proc \/ actv => e.act # NONE /\ e.ia = <<e.act>>, "C04", "processing did not end with exactly one active state")
     \cup V(proc => e.act = a0 \/ \E t \in tk2.passed : t[2] = e.act, "C04", "the state active after processing is not among the requests that passed their guards")
     \cup V(actv => e.act = 0 \/ \E t \in tk2.passed : t # NoT /\ t[2] = e.act, "C04", "the state active after activation is neither the initial state nor a redirect that passed its guards")
-    \cup V(step => \A q \in 1 .. Len(tk2.fired) : HasOD(tk.planx, tk2.fired[q]),
+    \cup V(step /\ PlanObs => \A q \in 1 .. Len(tk2.fired) : HasOD(tk.planx, tk2.fired[q]),
            "C08", "a task fired that is not in the plan: never appended, already removed or already fired")
-    \cup V(step => \A q \in 1 .. Len(tk2.fired) : HasOD(tk.planx, tk2.fired[q]) => HasExact(tk.planx, tk2.fired[q]),
+    \cup V(step /\ PlanObs => \A q \in 1 .. Len(tk2.fired) : HasOD(tk.planx, tk2.fired[q]) => HasExact(tk.planx, tk2.fired[q]),
            "C07", "a task fired with a payload other than the one it was appended with")
     \* ---- C08 / C09 when the plan step was the last thing visible
-    \cup V(step /\ HasHead => IsSubseq(e.plan, pb, 1, 1), "C08", "tasks that did not fire were reordered or replaced in the plan step")
-    \cup V(step /\ HasHead => \A q \in 1 .. Len(pos) : pos[q] <= PrefixLen(pb, a0, 1) /\ pb[pos[q]][1] \in tk.msucc,
+    \cup V(step /\ PlanObs => IsSubseq(e.plan, pb, 1, 1), "C08", "tasks that did not fire were reordered or replaced in the plan step")
+    \cup V(step /\ PlanObs => \A q \in 1 .. Len(pos) : pos[q] <= PrefixLen(pb, a0, 1) /\ pb[pos[q]][1] \in tk.msucc,
            "C08", "a task fired whose origin is not the active state with an outstanding success, or past a task of another origin")
-    \cup V(step /\ HasHead /\ pb # <<>> /\ pb[1][1] = a0 /\ a0 \in tk.succ /\ tk.mfail = {} /\ tk.sawF = {} => pos # <<>> /\ pos[1] = 1,
+    \cup V(FullObs /\ step /\ PlanObs /\ pb # <<>> /\ pb[1][1] = a0 /\ a0 \in tk.succ /\ tk.mfail = {} /\ tk.sawF = {} => pos # <<>> /\ pos[1] = 1,
            "C08", "the first task did not fire although its origin is active and reported success without failures")
-    \cup V(step /\ HasHead /\ tk.lastreq # NoT /\ pb # <<>> /\ pb[1][1] = a0 /\ a0 \in tk.succ /\ tk.mfail = {} /\ tk.sawF = {} => pos # <<>> /\ pos[1] = 1,
+    \cup V(FullObs /\ step /\ PlanObs /\ tk.lastreq # NoT /\ pb # <<>> /\ pb[1][1] = a0 /\ a0 \in tk.succ /\ tk.mfail = {} /\ tk.sawF = {} => pos # <<>> /\ pos[1] = 1,
            "C02", "the plan's request (the latest of the cycle) did not replace the earlier unprocessed request")
     \cup V(step /\ pb # <<>> /\ a0 \in tk.fail /\ HasHead => FALSE, "C09", "planFailed not delivered although the plan is non-empty and the active state reported failure")
     )
